@@ -1,5 +1,7 @@
 import Casket.Model.TLSGroup
 import Casket.Spec.TLSGroup
+import Casket.Model.TLSSetup
+import Casket.Spec.TLSSetup
 import Casket.Model.VHost
 import Driver.Proto
 import Driver.C01
@@ -258,7 +260,111 @@ def connJudge (f : List String) (out : String) : String :=
     | some s, some v => Casket.TLSSpec.crossVerdict c.cfgs (s, v)
     | _, _ => "bad:unparsable:" ++ out
 
+/- c06.setup  aesni  block
+     block = ';' list of lines  <namehex>|<arghex>,<arghex>,…   (the body of `tls self_signed { … }`)
+     out   = err:<argcount|badprotocol|badcipher|badcurve|mingtmax|unknown>
+           | min TAB max TAB ciphers TAB curves TAB prefer TAB clientAuth TAB clientCerts(hex list) TAB alpn(hex list) TAB disableSNI -/
+open Casket.TLSSetup in
+def parseLine (s : String) : Option Line :=
+  match s.splitOn "|" with
+  | [n, as] => do pure { name := ← bytes n, args := ← bytesList as }
+  | _ => none
+
+open Casket.TLSSetup in
+def parseBlock (s : String) : Option (List Line) :=
+  if s = "" then some [] else (s.splitOn ";").mapM parseLine
+
+open Casket.TLSSetup in
+def showSetupErr : SetupErr → String
+  | .argCount => "err:argcount"
+  | .badProtocol => "err:badprotocol"
+  | .badCipher => "err:badcipher"
+  | .badCurve => "err:badcurve"
+  | .minGtMax => "err:mingtmax"
+  | .unknown => "err:unknown"
+
+open Casket.TLSSetup in
+def showFinal (f : Final) : String :=
+  "\t".intercalate [toString f.cfg.minV, toString f.cfg.maxV, Driver.showNatList f.cfg.ciphers, Driver.showNatList f.cfg.curves,
+    bool01 f.cfg.preferServer, toString f.cfg.clientAuth, ",".intercalate (f.clientCerts.map hexB),
+    ",".intercalate (f.cfg.alpn.map hexB), bool01 f.cfg.disableSNIMatching]
+
+open Casket.TLSSetup in
+def parseFinal (s : String) : Option (Except SetupErr Final) :=
+  match s.splitOn "\t" with
+  | ["err:argcount"] => some (.error .argCount)
+  | ["err:badprotocol"] => some (.error .badProtocol)
+  | ["err:badcipher"] => some (.error .badCipher)
+  | ["err:badcurve"] => some (.error .badCurve)
+  | ["err:mingtmax"] => some (.error .minGtMax)
+  | ["err:unknown"] => some (.error .unknown)
+  | [mn, mx, cs, cv, pf, ca, cc, al, ds] => do
+    let mn ← mn.toNat?
+    let mx ← mx.toNat?
+    let cs ← Driver.natList cs
+    let cv ← Driver.natList cv
+    let ca ← ca.toNat?
+    let cc ← bytesList cc
+    let al ← bytesList al
+    pure (.ok { cfg := { hostname := [], enabled := true, minV := mn, maxV := mx, ciphers := cs, curves := cv,
+                         preferServer := pf == "1", clientAuth := ca, clientCerts := [], alpn := al,
+                         disableSNIMatching := ds == "1" },
+                clientCerts := cc })
+  | _ => none
+
+def setupModel : List String → String
+  | [a, b] =>
+    match parseBlock b with
+    | none => "bad-case"
+    | some block =>
+      match Casket.TLSSetup.setupTLS (a == "1") block with
+      | .error e => showSetupErr e
+      | .ok f => showFinal f
+  | _ => "bad-case"
+
+def setupJudge (f : List String) (out : String) : String :=
+  match f with
+  | [a, b] =>
+    match parseBlock b, parseFinal out with
+    | some block, some o => Casket.TLSSetupSpec.verdict (a == "1") block o
+    | _, _ => "bad:unparsable:" ++ out
+  | _ => "bad:unparsable:case"
+
+/- c06.listener  aesni  block    out = err | fail | ok TAB version TAB sanhex TAB requested -/
+def aTest : Bytes := Casket.TLSSetup.str "a.test"
+
+open Casket.TLSSetup in
+/-- the site's settings as the `tls` block states them (before defaults), for the listener model -/
+def rawCfgOf (r : Raw) : Cfg :=
+  { hostname := aTest, enabled := true, minV := r.minV, maxV := r.maxV, ciphers := r.ciphers, curves := r.curves,
+    preferServer := false, clientAuth := r.clientAuth, clientCerts := [], alpn := r.alpn, disableSNIMatching := r.disableSNI }
+
+def listenerCase : List String → Option (Bool × List Casket.TLSSetup.Line)
+  | [a, b] => (parseBlock b).map (fun bl => (a == "1", bl))
+  | _ => none
+
+def listenerModel (f : List String) : String :=
+  match listenerCase f with
+  | none => "bad-case"
+  | some (aesni, block) =>
+    match Casket.TLSSetup.applyLines {} block with
+    | .error _ => "err"
+    | .ok r =>
+      if !r.clientCerts.isEmpty then "err"   -- CA files of the generator do not exist: NewServer fails
+      else showHS (handshake aesni [rawCfgOf r] aTest tls10 tls13 (some (Casket.TLSSetup.str "pipe")))
+
+def listenerJudge (f : List String) (out : String) : String :=
+  if out == "err" then "ok"
+  else match listenerCase f, parseHS out with
+    | some (aesni, block), some o =>
+      match Casket.TLSSetup.applyLines {} block with
+      | .error _ => "bad:handshake-on-rejected-block:a listener came up although setupTLS must reject the block"
+      | .ok r => Casket.TLSSpec.hsVerdict aesni [rawCfgOf r] aTest (some (Casket.TLSSetup.str "pipe")) o
+    | _, _ => "bad:unparsable:" ++ out
+
 def streams : List Driver.Stream := [
+  { name := "c06.setup", model := setupModel, judge := setupJudge },
+  { name := "c06.listener", model := listenerModel, judge := listenerJudge },
   { name := "c06.connect", model := connModel, judge := connJudge },
   { name := "c06.build", model := buildModel, judge := buildJudge },
   { name := "c06.handshake", model := hsModel, judge := hsJudge },
